@@ -229,7 +229,7 @@ func checkC19(c *Ctx) {
 				m := userRe.FindStringSubmatch(ex)
 				okForm := m != nil && m[1] == m[2]
 				// same predicate for the sum and for the recipients
-				okPred, whyP := c.sameSelection(f, site.(ssa.Instruction), amt)
+				okPred, whyP := c.sameSelection(f, site.(ssa.Instruction), amt, F)
 				r.Check(okForm && okPred, "C19.prorata", "user-refund:"+fname(f), c.pos(site.(ssa.Instruction)), "user refund = remainder*fee_i/sum(fee_j | fee_j >= avg), recipients selected by the same predicate",
 					sprintf("the per-user fee refund is not remainder*fee_i/sum over the transfers selected by one predicate (form ok=%v, %s): %s", okForm, whyP, ex))
 			case lr.HasField("ExternalSigner.ExternalAddress"):
@@ -246,6 +246,51 @@ func checkC19(c *Ctx) {
 		if nCom == 0 {
 			r.Undecided("C19.prorata", "commission:"+fname(f), p.Pos(f.Pos()), "no commission payout found")
 		}
+
+		// the fee record is reduced exactly when a refund is sent
+		var refundCalls []ssa.Instruction
+		ana.Calls(f, func(site ssa.CallInstruction, d ana.CalleeDesc) {
+			for _, callee := range p.Callees(site) {
+				if !hasEff(c.Effects(callee), "bank", "BurnCoins", "") {
+					continue
+				}
+				for _, a := range site.Common().Args {
+					if a.Type().String() == "string" && p.Leaves(a, ana.PVOpt{}).HasField("SendToExternal.RefundAddress") {
+						refundCalls = append(refundCalls, site.(ssa.Instruction))
+					}
+				}
+			}
+		})
+		ana.Calls(f, func(site ssa.CallInstruction, d ana.CalleeDesc) {
+			isSet := false
+			for _, callee := range p.Callees(site) {
+				if hasEff(c.Effects(callee), "store", "Set", "TxFeeRecordKey") {
+					isSet = true
+				}
+			}
+			if !isSet {
+				return
+			}
+			// only the update (its value derives from a stored record), not the initialisation
+			upd := false
+			for _, a := range site.Common().Args {
+				l := p.Leaves(a, ana.PVOpt{Opaque: func(d ana.CalleeDesc) bool { return d.Name == "GetTxFeeRecord" }})
+				if l.HasCall("Keeper.GetTxFeeRecord") {
+					upd = true
+				}
+			}
+			if !upd {
+				return
+			}
+			in := site.(ssa.Instruction)
+			paired := false
+			for _, rc := range refundCalls {
+				if (rc.Block() == in.Block() && ana.InstrIndex(rc) < ana.InstrIndex(in)) || (rc.Block() != in.Block() && rc.Block().Dominates(in.Block())) {
+					paired = true
+				}
+			}
+			r.Check(paired, "C19.record", "update-iff-refund:"+fname(f), c.pos(in), "the fee record is reduced only after the refund of that transfer was sent", "the per-transfer fee record is reduced on a path on which no refund was sent for that transfer: the record reports less than the fee actually kept")
+		})
 
 		// fee record initialisation
 		for _, a := range allocsOfType(f, "TxFeeRecord") {
@@ -347,7 +392,7 @@ func sameSliceLoads(v ssa.Value) bool {
 }
 
 // sameSelection: the refund call is guarded by fee_i >= avg and the sum's Add by the same comparison against the same avg.
-func (c *Ctx) sameSelection(f *ssa.Function, refundSite ssa.Instruction, amt ssa.Value) (bool, string) {
+func (c *Ctx) sameSelection(f *ssa.Function, refundSite ssa.Instruction, amt ssa.Value, F *ssa.Alloc) (bool, string) {
 	p := c.P
 	var avgExprs []string
 	mk := func(want bool) ana.Atom {
@@ -415,6 +460,11 @@ func (c *Ctx) sameSelection(f *ssa.Function, refundSite ssa.Instruction, amt ssa
 	}
 	if !same {
 		return false, "the two selections compare against different thresholds: " + strings.Join(avgExprs, " vs ")
+	}
+	// the threshold is the average reimbursement actually paid: reimbursement / number of transfers
+	avgRe := regexp.MustCompile(`^Int\.QuoRaw\(local:` + regexp.QuoteMeta(F.Comment) + `\.Amount,len\(field:BatchTx\.Transactions\)\)$`)
+	if !avgRe.MatchString(avgExprs[0]) {
+		return false, "the selection threshold is not (reimbursement paid) / (number of transfers): " + avgExprs[0] + " (with another threshold the transfers below it can have paid more than the relayer received, and the others are refunded more than they paid)"
 	}
 	return true, "same predicate"
 }
